@@ -37,6 +37,10 @@ CHECKS = {
          "exhaustive differential enumeration of key lists: outcome(list) compared with outcome([T]) / outcome(no relevant key) for first and retried hellos",
          "All ordered key lists of length 0..4 (thorough; quick: all of length <=3 plus the length-4 lists mixing T with same-id keys) over a pool with same-id/same-suite, same-id/disjoint-suite, same-id/other-public-name and other-id keys x 3 AEADs x first/retried hello x hello encrypted to a held/unheld key are run on the real Conn; the outcome (acceptance, error class, forwarded bytes, alert bytes) must be identical to the reference list's.",
          "reference sender validated against crypto/tls; all listed keys are valid", "§3 C09"),
+ "C07": ("fault_enumeration", "E2 envx",
+         "deviation-bounded exhaustive exploration of environment answers (transport read sizes, buffer sizes, write splits, write faults, transport end at every offset) by re-execution against a two-queue reference",
+         "Four scenarios are re-executed from scratch for every perturbation with 0 and 1 deviation (a fragment boundary at every byte offset, a Write split at every offset, a transport end of both kinds at every inbound offset, each transport write failing/short) and a stated family with 2 deviations; plus every permitted record length x content type in both directions. On every execution the bytes moved must be a prefix of the reference stream, complete records must not be withheld, and errors must be reported after the data and stay.",
+         "reference stream uses tlsref's reconstruction; quick tier samples offsets away from record/header boundaries (every 17th/23rd/29th), thorough takes every offset", "§3 C07"),
 }
 
 NOT_YET = {}
